@@ -87,7 +87,7 @@ func propFunctions(cf *ContractFile, prop string) []string {
 	for _, k := range cf.Order {
 		fc := cf.Funcs[k]
 		hit := false
-		for _, c := range fc.Ensures {
+		for _, c := range append(append([]*Clause{}, fc.Ensures...), fc.Proves...) {
 			for _, p := range c.Props {
 				if p == prop {
 					hit = true
@@ -351,6 +351,9 @@ func (cc *checkCtx) report(obs []*Obligation, reports []*FuncReport, writeBaseli
 		if rep.Unsup != "" {
 			undec = append(undec, rep.Key+": "+rep.Unsup)
 			info["undecided"] = rep.Unsup
+		} else if rep.Paths == 0 && rep.Key != "package" && rep.Trusted == "" {
+			fmt.Printf("ENGINE-ERROR: no feasible path reaches a return in %s (vacuous verification)\n", rep.Key)
+			return 2
 		}
 		if rep.Trusted != "" {
 			assumed["trusted-contract:"+rep.Key+" ("+rep.Trusted+")"] = true
